@@ -23,6 +23,13 @@ def check(run):
     plans += [dict(num=40 if quick else 400, ops=26, window=w, txs=few, maxb=11, cfg="Gen_XState_fin.cfg") for w in ((2, 3) if quick else (1, 2, 3, 4))]
     groups = xc.gen(run, plans)
     xc.replay_validate(run, groups)
+    # engine level: mining rounds in which the consensus asks for a truncation below / above the irreversible height
+    # (Miner.truncateForMiner must walk without the prune flag), pushed chains, restarts; windows 1 and 2
+    est = {}
+    if not run.violations:
+        _, est = xc.engine_phase(run, 40 if quick else 300, ops=36, window=2, mc=False)
+    if not run.violations and not quick:
+        _, est1 = xc.engine_phase(run, 300, ops=36, window=1, mc=False, tag="w1")
     behs = [b for _, bs, _ in groups for b in bs]
     st = xc.stats(behs)
     ops = [o for b in behs for o in b]
@@ -31,4 +38,5 @@ def check(run):
     run.cov["windows"] = sorted({p.get("window", 0) for p, _, _ in groups})
     run.finish(require={"walks_refused": (st["walk:fail"], 5), "walks_ok": (st["walk:ok"], 20),
                         "prune_walks": (sum(1 for o in ops if o["op"] == "walk" and o.get("prune")), 5),
-                        "restarts": (st["restart:ok"], 5), "blocks_applied": (st["play:ok"] + st["mine:ok"] + st["walk:ok"], 40)})
+                        "restarts": (st["restart:ok"], 5), "engine_truncating_rounds": (est.get("minetrunc:-", 0), 5),
+                        "engine_truncations_refused_by_finality": (run.cov.get("engine_trunc_refused", 0), 2), "blocks_applied": (st["play:ok"] + st["mine:ok"] + st["walk:ok"], 40)})
